@@ -39,13 +39,14 @@ def shards(tier, seed):
     for i in range(n):
         out.append({"kind": "cuts", "streams": 3 if tier == "quick" else 40, "transport": ("pipe", "tcp")[i % 2]})
     out.append({"kind": "worker", "runs": 10 if tier == "quick" else 150})
+    out.append({"kind": "late_new", "ks": [1, 2, 3] if tier == "quick" else [1, 2, 3, 5, 8, 13], "noise_runs": 30 if tier == "quick" else 600})
     for sp in ("popen", "socket", "via"):
         out.append({"kind": "kill", "spec": sp, "runs": 3 if tier == "quick" else 60})
     return out
 
 
 def run_shard(spec):
-    return {"cuts": run_cuts, "worker": run_worker, "kill": run_kill}[spec["kind"]](spec)
+    return {"cuts": run_cuts, "worker": run_worker, "kill": run_kill, "late_new": run_late_new}[spec["kind"]](spec)
 
 
 # ---------------------------------------------------------------------------
@@ -78,7 +79,7 @@ def gen_stream(rng, maxbytes):
         size += 9 + len(fr[2])
     modes = {}
     for c in cids:
-        modes[c] = {"mode": rng.choice(("receive", "receive", "callback")), "receivers": rng.choice((1, 2, 3)),
+        modes[c] = {"mode": rng.choice(("receive", "receive", "callback", "callback_dropped")), "receivers": rng.choice((1, 2, 3)),
                     "waitclosers": rng.choice((0, 1, 2)), "attach": rng.choice(("before", "after"))}
     return {"cids": cids, "frames": frames, "modes": modes}
 
@@ -162,12 +163,19 @@ def run_one_cut(res, rng, prog, S, k, transport, variant, label):
         md = prog["modes"][c]
         if md["mode"] == "callback":
             chans[c].setcallback(logs[c]["cb"].append, endmarker=END)
+        elif md["mode"] == "callback_dropped":
+            # the common gw.remote_exec(..).setcallback(..) idiom: nobody keeps the channel object
+            chans[c].setcallback(logs[c]["cb"].append, endmarker=END)
+            chans[c] = None
+            import gc
+
+            gc.collect()
         else:
             for i in range(md["receivers"]):
                 t = threading.Thread(target=receiver, args=(c, i), daemon=True)
                 threads.append(t)
                 t.start()
-        for i in range(md["waitclosers"]):
+        for i in range(md["waitclosers"] if md["mode"] != "callback_dropped" else 0):
             t = threading.Thread(target=waitcloser, args=(c, i), daemon=True)
             threads.append(t)
             t.start()
@@ -189,6 +197,14 @@ def run_one_cut(res, rng, prog, S, k, transport, variant, label):
         elif variant == "write_only":
             sp.sock.shutdown(socket.SHUT_WR)
         else:
+            # closing a TCP socket that still holds unread bytes (e.g. the LAST_MESSAGE frame of a dropped channel)
+            # would turn the orderly close into a reset: read them first
+            sp.sock.setblocking(False)
+            try:
+                while sp.sock.recv(65536):
+                    pass
+            except (BlockingIOError, OSError):
+                pass
             sp.sock.close()
     else:
         if variant == "write_only":
@@ -215,7 +231,7 @@ def run_one_cut(res, rng, prog, S, k, transport, variant, label):
         md = prog["modes"][c]
         wi = want_items.get(c, [])
         lg = logs[c]
-        if md["mode"] == "callback":
+        if md["mode"] in ("callback", "callback_dropped"):
             from vlib import pairs as _p
 
             _p.wait_until(lambda: END in lg["cb"], 6)
@@ -260,7 +276,10 @@ def run_one_cut(res, rng, prog, S, k, transport, variant, label):
     if gw.hasreceiver():
         res.violation(m("gateway-still-reports-receiving"), label)
     for name, op in (("newchannel", gw.newchannel), ("remote_exec", lambda: gw.remote_exec("pass")),
-                     ("send", lambda: chans[prog["cids"][0]].send(1)), ("gateway_send", lambda: gw._send(M["CHANNEL_DATA"], 1, b""))):
+                     ("send", lambda: next(ch for ch in chans.values() if ch is not None).send(1)),
+                     ("gateway_send", lambda: gw._send(M["CHANNEL_DATA"], 1, b""))):
+        if name == "send" and all(ch is None for ch in chans.values()):
+            continue
         try:
             op()
         except OSError:
@@ -268,8 +287,6 @@ def run_one_cut(res, rng, prog, S, k, transport, variant, label):
         except BaseException as e:
             res.violation(m(f"{name}-after-loss-raised-{type(e).__name__}"), f"{label}: {e}")
         else:
-            if name == "send" and chans[prog["cids"][0]].isclosed():
-                pass  # cannot happen: a closed channel refuses with OSError
             res.violation(m(f"{name}-after-loss-accepted"), label)
     sp.shutdown(2)
     res.count("cuts")
@@ -309,6 +326,84 @@ def run_cuts(spec):
             res.case(core.h64("cut", spec["shard"], si, k, variant))
         if si == 0:
             res.sample({"frames": [(codec.MSGNAME[c], i, len(p)) for c, i, p in prog["frames"]], "stream_len": len(S), "cuts": len(cuts)})
+    return res
+
+
+# ---------------------------------------------------------------------------
+# channels created while the connection is being lost: refused with OSError, or closed like all others
+
+
+def run_late_new(spec):
+    from execnet import gateway_base as gb
+    from vlib import imodel
+    from vlib import pairs
+
+    res = Result()
+    rng = core.rng_for("C04n", spec["tier"], spec["seed"])
+    pre = imodel.Preempt(core.REPO_SRC)
+    pre.install()
+    try:
+        lines = imodel.function_lines(gb.ChannelFactory.new, gb.ChannelFactory._finished_receiving, gb.Channel.__init__)
+        todo = [(ln, k) for ln in lines for k in spec["ks"]] + [(None, i) for i in range(spec["noise_runs"])]
+        for ln, k in todo:
+            if res.enough(6):
+                break
+            sp = pairs.ScriptedPeer(tee=False, transport=rng.choice(("pipe", "tcp")))
+            gw = sp.gw
+            created, errs, refused = [], [], [0]
+            stop = threading.Event()
+
+            def creator():
+                while not stop.is_set() and len(created) < 300:
+                    try:
+                        created.append(gw.newchannel())
+                    except OSError:
+                        refused[0] += 1
+                        time.sleep(0)
+                    except BaseException as e:  # noqa
+                        errs.append(repr(e))
+                        return
+
+            ths = [threading.Thread(target=creator, daemon=True) for _ in range(2)]
+            if ln is None:
+                pre.set_noise(rng.getrandbits(32), rng.choice((0.05, 0.2)))
+                label = f"late newchannel, line noise run {k}"
+            else:
+                pre.restart()
+                pre.set_sweep(ln[0], ln[1], k, stall=0.03)
+                label = f"late newchannel, stall at line {ln[1]} hit {k}"
+            for t in ths:
+                t.start()
+            time.sleep(rng.choice((0.0, 0.0005, 0.002)))
+            sp.close_peer()
+            gw.join(5)
+            time.sleep(0.05)
+            stop.set()
+            for t in ths:
+                t.join(5)
+            pre.off()
+            res.count("late_new_runs")
+            res.count("late_channels_created", len(created))
+            res.count("late_creations_refused", refused[0])
+            res.case(core.h64("late_new", ln, k))
+            if errs:
+                res.violation("newchannel-during-loss-raised", f"{label}: {errs[0]}")
+            for ch in created:
+                res.count("waiters_checked")
+                try:
+                    ch.receive(3)
+                    res.violation("late-created-channel-delivered-item", label)
+                    break
+                except EOFError:
+                    pass
+                except BaseException as e:
+                    res.violation("late-created-channel-left-open-on-dead-gateway", f"{label}: receive -> {type(e).__name__} (channel id {ch.id}, "
+                                  f"{len(created)} created, {refused[0]} refused)")
+                    break
+            sp.shutdown(1)
+        res.sample({"late_new_runs": len(todo), "lines": len(lines)})
+    finally:
+        pre.uninstall()
     return res
 
 
